@@ -99,6 +99,9 @@ HETERO = [
     dict(cols="nnn", x0="exact0", pre="jacobi", n_tridiag=2, max_tridiag_iter="="),
 ]
 HETERO_FAMS = [("uniform", 10.0), ("geometric", 1e2)]
+# (max_cg_iterations, max_lanczos_quadrature_iterations) asked of the settings contexts; None = context not entered
+# (library defaults 1000 / 20).  max_tridiag_iter > max_iter must raise - also when both limits come from the settings.
+SETLIMITS = [(5, None), (8, 16), (19, 20), (20, 20), (16, 8), (25, None), (None, 30), (None, None), (12, 11), (None, 1001)]
 
 # tiny-norm columns in both precisions: column norms on the ladder 1e-5 .. 1e-9 (kinds 5..9), between the rhs_is_zero threshold
 # eps = 1e-10 and well above float32 machine epsilon 1.2e-7, next to normal / 1e-12 / zero columns.  Such a column is NOT zero:
@@ -259,6 +262,19 @@ def grid(quick, rng):
         for n in ([8, 24] if quick else [3, 8, 16, 24, 40]):
             prof = dict(oc, max_iter_default=True, op=True)
             systems.append(mkspec(prof.pop("fam"), prof.pop("kappa"), n, prof, rng.getrandbits(40), quick))
+    # iteration limits taken from the SETTINGS (arguments None): every consistent / inconsistent combination of the two
+    # contexts, with and without a tridiagonalisation, through direct calls and through the operator entry points
+    for (cg, lq) in SETLIMITS:
+        for ntr in (0, 2):
+            for n in ([24] if quick else [6, 24, 40]):
+                prof = dict(cols="nn", max_iter_default=True, op="limits", set_tol=1e-2)
+                if cg is not None:
+                    prof["set_max_cg"] = cg
+                if lq is not None:
+                    prof["set_max_lq"] = lq
+                if ntr:
+                    prof["n_tridiag"] = ntr
+                systems.append(mkspec("uniform", 10.0, n, prof, rng.getrandbits(40), quick))
     out = []
     for sp in systems:
         bs = budgets_for(sp, quick)
